@@ -98,13 +98,15 @@ where
         buffer: &mut DumpBuf,
         dirent: Option<MDRawDirectory>,
     ) -> std::result::Result<(), FileWriterError> {
-        if let Some(dirent) = dirent {
-            self.dump_dir_entry(buffer, dirent)?;
-        }
-
+        // Append the new bytes first and only then publish the directory entry that refers to
+        // them, so that a truncated file never has an entry pointing past its end.
         let start_pos = self.last_position_written_to_file as usize;
         self.destination.write_all(&buffer[start_pos..])?;
         self.last_position_written_to_file = buffer.position();
+
+        if let Some(dirent) = dirent {
+            self.dump_dir_entry(buffer, dirent)?;
+        }
         Ok(())
     }
 }
